@@ -54,6 +54,13 @@ def loop_iter(x) -> SIter:
         return SIter(n, x.get)
     if isinstance(x, SCursor):
         raise Unsupported("loop directly over a shared symbolic iterator")
+    if isinstance(x, SDict):
+        return loop_iter(x.keys())
+    if isinstance(x, SObj):
+        sch = sym.OBJ_SCHEMAS.get(x.cls) or {}
+        if "__iter__" in sch:
+            return loop_iter(sch["__iter__"](x))
+        raise Unsupported(f"iteration over an opaque object of class {x.cls!r}")
     if isinstance(x, (list, tuple, range, str, dict, set, frozenset)) or hasattr(x, "__iter__"):
         items = list(x)
         return SIter(len(items), lambda i: items[i] if isinstance(i, int) else SSeq.of(items).get(i), items)
@@ -425,6 +432,34 @@ class SDict:
             raise KeyError(k)
         return self._v(z3.Select(self.val, e))
 
+    def __eq__(self, o):
+        if isinstance(o, dict) and not o:
+            n = self.size()
+            return n == 0 if isinstance(n, int) else sym.wrap_expr(lift(n) == 0)
+        if o is self:
+            return True
+        raise Unsupported("comparison of a symbolic dictionary with another value")
+
+    __hash__ = None
+
+    def vfw_concretize(self, m, cap=6):
+        """[[key, value], ...] in iteration order (input dictionaries) under the model m"""
+        if self.keyseq is None:
+            return "<dictionary built by the code>"
+        n = sym.concretize(self.keyseq.length(), m) if not isinstance(self.keyseq.length(), int) else self.keyseq.length()
+        if not isinstance(n, int):
+            return f"<dict len={n}>"
+        out = []
+        c = cur()
+        c.nofork += 1
+        try:
+            for i in range(max(0, min(n, cap))):
+                k = self.keyseq.get(i)
+                out.append([sym.concretize(k, m), sym.concretize(self._v(z3.Select(self.val, lift(k))), m)])
+        finally:
+            c.nofork -= 1
+        return out
+
     def __setitem__(self, k, v):
         e = box_key(k)
         self.val = z3.Store(self.val, e, lift(v) if not (self.val.sort().range() == z3.RealSort() and lift(v).sort() == z3.IntSort()) else z3.ToReal(lift(v)))
@@ -752,6 +787,10 @@ def unpack(q, shape):
 def _quant(seq, pred, forall):
     if isinstance(seq, range):
         seq = list(seq)
+    if isinstance(seq, SObj) and "__iter__" in (sym.OBJ_SCHEMAS.get(seq.cls) or {}):
+        seq = sym.OBJ_SCHEMAS[seq.cls]["__iter__"](seq)
+    if isinstance(seq, SDict):
+        seq = seq.keys()
     s = seq if isinstance(seq, SSeq) else SSeq.of(list(seq) if not isinstance(seq, (list, tuple)) else seq)
     if forall:
         return sym.wrap_expr(sym.seq_forall(s, pred))
